@@ -32,6 +32,8 @@ mod dce;
 mod gocomp;
 mod namecat;
 mod lower;
+mod patpos;
+mod patrule;
 mod nametest;
 mod gopp;
 mod probe;
@@ -80,6 +82,7 @@ fn main() {
         "gopp" => gopp::main(&args),
         "namecat" => namecat::main(&args),
         "lower" => lower::main(&args),
+        "patpos" => patpos::main(&args),
         "probe" => probe::main(&args),
         "stages" => probe::stages(&args),
         "golden" => probe::golden(&args),
